@@ -116,17 +116,31 @@ func (s *Sim) checkTranslation(ctx *StepCtx) {
 		upd bool
 	}
 	want := map[slotKey][]*RuleIntent{}
+	// a URR whose removal the data plane was made to refuse is out of step between go-upf
+	// and the data plane from then on: not judged
+	skip := func(ref RuleRef) bool {
+		return ref.Kind == "urr" && s.model.delFaulted[RuleKey{"urr", x.UP, uint64(ref.ID)}]
+	}
 	for i := range in.Create {
 		k := slotKey{in.Create[i].ref(), false}
+		if skip(k.ref) {
+			continue
+		}
 		want[k] = append(want[k], &in.Create[i])
 	}
 	for i := range in.Update {
 		k := slotKey{in.Update[i].ref(), true}
+		if skip(k.ref) {
+			continue
+		}
 		want[k] = append(want[k], &in.Update[i])
 	}
 	seen := map[slotKey]int{}
 	for _, r := range ctx.Reqs {
 		if r.Conn != "main" || (r.Op != "add-create" && r.Op != "add-update") {
+			continue
+		}
+		if r.Key.Kind == "urr" && s.model.delFaulted[r.Key] {
 			continue
 		}
 		kind := r.Key.Kind
